@@ -148,7 +148,7 @@ func TestCheck(t *testing.T) {
 	defer r.Finish()
 	logrus.SetLevel(logrus.PanicLevel)
 	logrus.SetOutput(io.Discard)
-	r.Rule("case = (backend, fault script, flush layout, cancellation point). SOCKET: every dial script over {F dial fails, Wi dial ok then the i-th write on that connection fails (i=1..3)} of length <=4 (quick: those with <=2 F, one layout; thorough: all, three layouts) followed by healthy connections (a healthy connection is absorbing, so scripts containing H equal their prefix), crossed with cancellation {none, Run context at dial n, one stream's context at dial n, n over every dial} and PRNG-drawn layouts of 1-3 streams x 1-3 buffers submitted before Run or during a chosen dial; fixed regression scripts (D9 pattern, stale stream-cancel, 100-streams-per-connection reconnect); the harness pumps filler streams while the sender idles on a healthy connection with script steps left, then a sentinel, then cancels Run and counts at Run's return; the same machinery drives the real graphite and statsdaemon (tcp size and udp packet size) clients via VerifSetConnFactory, plus statsdaemon/udp over a real loopback socket. HTTP: datadog, influxdb v1/v2, newrelic infra/insights/metrics, otlp behind a scripted RoundTripper, outcome per (batch, attempt) over {2xx, 500, 429+Retry-After, transport error, hang}: every failure prefix of length <=2 then success (window 1h), every failure sequence of length <=3 repeated until the 1s (virtual) retry window expires, retries disabled (-1), otlp max-retries, and cancellation before the call / at the n-th request / during the n-th back-off / late while only hung requests remain; layouts 0, 1, 3 batches (all batches or only the middle one following the script; max-requests 1 or 4); cloudwatch through a scripted API (per call ok/error/block), stdout and null. The influxdb cancelled-before-call case is repeated >=40 times per run. FLUSHER: real MetricFlusher + BackendHandler (1-2 workers) + influxdb/datadog/graphite: a flush whose transport fails, then a healthy one. Oracles: callback count per SendMetricsAsync == 1 at quiescence (Run returned / no request in flight, no mock timers, goroutine count back to baseline, context cancelled afterwards); non-nil error whenever an observed batch or buffer was not delivered (no 2xx / failed or missing write); no error when every observed batch got a 2xx and nothing was cancelled; no panic; next flush's request observed. Non-trivial = at least one transport failure was observed and the request then ended in recovery, retry-window expiry or cancellation; distinct by (backend, script, cancellation, observed batch count class).")
+	r.Rule("case = (backend, fault script, flush layout, cancellation point). SOCKET: every dial script over {F dial fails, Wi dial ok then the i-th write on that connection fails (i=1..3)} of length <=4 (quick: those with <=2 F, one layout; thorough: all, six layouts) followed by healthy connections (a healthy connection is absorbing, so scripts containing H equal their prefix), crossed with cancellation {none, Run context at dial n, one stream's context at dial n, n over every dial} and PRNG-drawn layouts of 1-3 streams x 1-3 buffers submitted before Run or during a chosen dial; fixed regression scripts (D9 pattern, stale stream-cancel, 100-streams-per-connection reconnect); the harness pumps filler streams while the sender idles on a healthy connection with script steps left, then a sentinel, then cancels Run and counts at Run's return; the same machinery drives the real graphite and statsdaemon (tcp size and udp packet size) clients via VerifSetConnFactory, plus statsdaemon/udp over a real loopback socket. HTTP: datadog, influxdb v1/v2, newrelic infra/insights/metrics, otlp behind a scripted RoundTripper, outcome per (batch, attempt) over {2xx, 500, 429+Retry-After, transport error, hang}: every failure prefix of length <=2 then success (window 1h), every failure sequence of length <=3 repeated until the 1s (virtual) retry window expires, retries disabled (-1), otlp max-retries, and cancellation before the call / at the n-th request / during the n-th back-off / late while only hung requests remain; layouts 0, 1, 3 batches (all batches or only the middle one following the script; max-requests 1 or 4); cloudwatch through a scripted API (per call ok/error/block), stdout and null. The influxdb cancelled-before-call case is repeated >=40 times per run. FLUSHER: real MetricFlusher + BackendHandler (1-2 workers) + influxdb/datadog/graphite: a flush whose transport fails, then a healthy one. Oracles: callback count per SendMetricsAsync == 1 at quiescence (Run returned / no request in flight, no mock timers, goroutine count back to baseline, context cancelled afterwards); non-nil error whenever an observed batch or buffer was not delivered (no 2xx / failed or missing write); no error when every observed batch got a 2xx and nothing was cancelled; no panic; next flush's request observed. Non-trivial = at least one transport failure was observed and the request then ended in recovery, retry-window expiry or cancellation; distinct by (backend, script, cancellation, observed batch count class).")
 	r.Assume("scripted net.Conn / ConnFactory / http.RoundTripper / CloudWatch API installed by the harness; the sender's real 1 s reconnect timer is waited out on logical conditions (next dial observed); whether a batch was delivered is taken from the responses the harness itself served")
 	r.Assume("OTLP retries re-send a request whose body is already drained and New Relic insights/metrics retries re-gzip the gzipped payload: outside C16, batches are identified through Request.GetBody and repeated gunzip")
 
